@@ -60,6 +60,7 @@ def run_comb(desc, build, ref, prop, alphabets=None, max_viol=3, use_clk=False):
                 'vacuous_ok': True, 'distinct_outcomes': 0,
                 'samples': [{'config': desc, 'rejected': repr(e)[:160]}], 'violations': []}
     sim = hw.getSimulator()
+    core.bystander()            # another system gets its simulator and runs in between: must not disturb this one
     wires = core.all_wires(hw)
     names = [n for n, _ in ins]
     iw = [w for _, w in ins]
